@@ -120,7 +120,8 @@ def _(data: polars.Series, **kwargs) -> NoReturn:
 
 @extract_weights.register
 def _(data: polars.Series, array_mask: Optional[np.ndarray] = None) -> np.ndarray:
-    array, _ = extract_1d_array(data, dropna=False)
+    extract_1d_array(data, dropna=False)  # Validates the dtype and the absence of nulls
+    array = data.to_numpy(allow_copy=True)  # Keeps integer weights integer
     return extract_weights(array, array_mask=array_mask)  # type: ignore
 
 
